@@ -113,6 +113,18 @@ theorem c15_chunk_layout_independent (cq : Cq) (off n : Nat) :
     cqRange cq off n = (cq.flatten.drop off).take n :=
   ⟨cqDrop_flatten n cq, cqTake_flatten n cq, cqRange_flatten cq off n⟩
 
+/-! ## the parser implements the RFC meaning of every range-spec -/
+
+/-- For every grammatical range-spec (first-last, first-, -suffix) with optional
+    whitespace around it, leading zeros and digit strings of ANY length:
+    http_range_parse_next() yields exactly the byte range RFC 9110 14.1.2 assigns
+    to it for this representation length — or nothing when the RFC calls it
+    unsatisfiable (or first-pos > last-pos).  Numbers beyond the off_t range are
+    clamped by strtoll and the proof shows the clamp is harmless. -/
+theorem c15_spec_is_rfc (len : Int) (hlen : 0 < len) (hmax : len ≤ LLONG_MAX) (e : Elem)
+    (hwf : e.WF) : parseSpec e.text len = e.spec.sem len :=
+  parseSpec_elem len hlen hmax e hwf
+
 /-! ## every satisfiable requested range is contained in some part -/
 
 /-- For a grammatical range-set of at most 10 (RMAX_UNSORTED) specs, in any order,
@@ -311,6 +323,61 @@ theorem c15_range_response (rq : Req) (rs : Resp) (unit : Bytes) (es : List Elem
     · left; exact ⟨a, b, h1, h2, h4⟩
     · right; exact ⟨h1, h3, h4⟩
 
+/-- The same headline for up to 128 specs whose satisfiable ranges ascend, on a request that satisfies every precondition: if some
+    spec is satisfiable the answer is 206, its parts are in bounds, every
+    satisfiable requested range lies inside a part, and the body consists of
+    exactly the representation's bytes of those parts (one part: the slice itself;
+    several: the multipart/byteranges framing of `multipartBody`). -/
+theorem c15_range_response_ascending (rq : Req) (rs : Resp) (unit : Bytes) (es : List Elem)
+    (happ : Applicable rq rs (unit ++ rangeSetText es))
+    (hunit : unit.length = 6 ∧ eqIcase unit bytesEq = true)
+    (hne : es ≠ []) (hwf : ∀ e ∈ es, e.WF)
+    (hcount : es.length ≤ 128)
+    (hasc : (es.filterMap (fun e => e.spec.sem rs.body.flatten.length)).Pairwise
+      (fun a b => a.1 ≤ b.1))
+    (hlen : rs.body.flatten ≠ []) (hmax : (rs.body.flatten.length : Int) ≤ LLONG_MAX)
+    (hsat : ∃ e ∈ es, (e.spec.sem rs.body.flatten.length).isSome) :
+    let out := rfc7233 rq rs
+    let rep := rs.body.flatten
+    let parts := (parse (rangeSetText es) rep.length).map toNatRng
+    out.status = 206 ∧
+    (∀ p ∈ parts, p.1 ≤ p.2 ∧ p.2 < rep.length) ∧
+    (∀ e ∈ es, ∀ r, e.spec.sem rep.length = some r →
+        ∃ p ∈ parts, (p.1 : Int) ≤ r.1 ∧ r.2 ≤ (p.2 : Int)) ∧
+    out.contentLength = some (natDec out.body.flatten.length) ∧
+    ((∃ a b, parts = [(a, b)] ∧ out.contentRange = some (contentRange a b rep.length) ∧
+        out.body.flatten = slice rep a b) ∨
+     (2 ≤ parts.length ∧ out.contentType = some multipartType ∧
+        out.body.flatten = multipartBody rep rs.contentType parts)) := by
+  intro out rep parts
+  have h206 : (rfc7233 rq rs).status = 206 :=
+    (c15_416_iff rq rs unit es happ hunit hne hwf hlen hmax).2.mpr hsat
+  have hb : (withAcceptRanges rs).body = rs.body := (same_withAcceptRanges rs).2.1
+  have hct : (withAcceptRanges rs).contentType = rs.contentType := (same_withAcceptRanges rs).2.2.2.2.1
+  have hst : (withAcceptRanges rs).status = 200 := by
+    rw [(same_withAcceptRanges rs).1]; exact happ.2.1
+  have hdrop : (unit ++ rangeSetText es).drop 6 = rangeSetText es := by
+    rw [← hunit.1]; simp
+  have hpos : 0 < rs.body.flatten.length := by
+    cases hh : rs.body.flatten with
+    | nil => exact absurd hh hlen
+    | cons x xs => simp
+  have he := rfc7233_applicable happ
+  have hpe := c15_parts_exact (withAcceptRanges rs) (unit ++ rangeSetText es) hst (by rw [← he]; exact h206)
+  simp only [hb, hct, hdrop, ← he] at hpe
+  obtain ⟨_, hbounds, hcl, hshape⟩ := hpe
+  refine ⟨h206, hbounds, ?_, hcl, ?_⟩
+  · intro e he' r hr
+    obtain ⟨p, hp, h1, h2⟩ := c15_satisfiable_covered_ascending rs.body.flatten.length hpos hmax es hne
+      hwf hcount hasc e he' r hr
+    have hin := parse_inB (rangeSetText es) rs.body.flatten.length (by omega) p hp
+    refine ⟨toNatRng p, List.mem_map_of_mem hp, ?_, ?_⟩
+    · simp only [toNatRng, InB] at hin ⊢; omega
+    · simp only [toNatRng, InB] at hin ⊢; omega
+  · rcases hshape with ⟨a, b, h1, h2, _, h4⟩ | ⟨h1, _, h3, h4⟩
+    · left; exact ⟨a, b, h1, h2, h4⟩
+    · right; exact ⟨h1, h3, h4⟩
+
 /-- Numbers beyond the off_t range are harmless (RFC 9110 14.1.1: "recipients MUST
     anticipate potentially large decimal numerals"): a last-pos of 2^63-1 or more
     means "to the end", an overflowing suffix-length means "everything", an
@@ -361,14 +428,27 @@ theorem c15_ignored (rq : Req) (rs : Resp)
 
 /-! ## conditional GET / HEAD -/
 
-/-- A GET or HEAD on a representation that has an entity tag is answered 304
-    exactly when If-None-Match matches it (weak comparison; strong when a Range
-    header is present), or, in the absence of If-None-Match, when
-    If-Modified-Since equals the Last-Modified field byte for byte or parses as
-    an HTTP-date that is not earlier than the modification time.  (`t ≠ -1`: the
-    code cannot tell the instant -1, one second before the epoch, from timegm()
-    failure; lighttpd does not serve such dates.) -/
-theorem c15_304_iff (now : Int) (rq : CondReq) (et : Bytes) (lmod : Option Bytes) (lmtime : Int)
+/-- A GET or HEAD on a representation that has an entity tag and whose
+    Last-Modified field is the date lighttpd renders from the modification time
+    (what http_response_send_file() builds) is answered 304 exactly when
+    If-None-Match matches the tag (weak comparison; strong when a Range header is
+    present), or, in the absence of If-None-Match, If-Modified-Since parses as an
+    HTTP-date that is not earlier than the modification time.  (`t ≠ -1`,
+    `lmtime ≠ -1`: the code cannot tell the instant -1, one second before the
+    epoch, from timegm() failure.) -/
+theorem c15_304_iff (now : Int) (rq : CondReq) (et : Bytes) (lmtime : Int)
+    (hm : rq.method ≤ 1) (h0 : -30610224000 ≤ lmtime) (h1 : lmtime ≤ 253402300799)
+    (hne : lmtime ≠ -1) :
+    handleCachable now rq (some et) (some (timeToStr lmtime)) lmtime = .notModified ↔
+      (∃ inm, rq.ifNoneMatch = some inm ∧ etagMatches et inm (!rq.hasRange) = true) ∨
+      (rq.ifNoneMatch = none ∧ ∃ ims t, rq.ifModifiedSince = some ims ∧
+         dateToTime now ims = some t ∧ lmtime ≤ t ∧ t ≠ -1) :=
+  handleCachable_304_iff_emitted now rq et lmtime hm h0 h1 hne
+
+/-- The decision for an ARBITRARY Last-Modified field (`lmod` and `lmtime`
+    unrelated, e.g. set by a backend): the code additionally answers 304 when
+    If-Modified-Since equals that field byte for byte, whatever it contains. -/
+theorem c15_304_iff_general (now : Int) (rq : CondReq) (et : Bytes) (lmod : Option Bytes) (lmtime : Int)
     (hm : rq.method ≤ 1) :
     handleCachable now rq (some et) lmod lmtime = .notModified ↔
       (∃ inm, rq.ifNoneMatch = some inm ∧ etagMatches et inm (!rq.hasRange) = true) ∨
@@ -396,18 +476,19 @@ theorem c15_etag_star (etag : Bytes) (weakOk : Bool) : etagMatches etag [42] wea
 
 /-! ## dates -/
 
-/-- Every date lighttpd emits (IMF-fixdate of an instant in 1970..9999) is 29 bytes
+/-- Every date lighttpd emits (IMF-fixdate of an instant in the years 1000..9999, i.e.
+    every four-digit year, before and after the epoch; HTTP_DATE_SZ is the extracted
+    buffer size) is 29 bytes
     long and parses back to the same instant. -/
-theorem c15_date_roundtrip_imf (now t : Int) (h0 : 0 ≤ t) (h1 : t ≤ 253402300799) :
+theorem c15_date_roundtrip_imf (now t : Int) (h0 : -30610224000 ≤ t) (h1 : t ≤ 253402300799) :
     timeToStr t = renderIMF t ∧ (renderIMF t).length = 29 ∧
     dateToTime now (timeToStr t) = some t := by
   obtain ⟨hl, hr⟩ := imf_roundtrip now t h0 h1
-  have : timeToStr t = renderIMF t := by
-    simp only [timeToStr, hl]; rfl
+  have : timeToStr t = renderIMF t := timeToStr_eq t h0 h1
   exact ⟨this, hl, by rw [this]; exact hr⟩
 
 /-- The same instant written in asctime() format parses back to it. -/
-theorem c15_date_roundtrip_asctime (now t : Int) (h0 : 0 ≤ t) (h1 : t ≤ 253402300799) :
+theorem c15_date_roundtrip_asctime (now t : Int) (h0 : -30610224000 ≤ t) (h1 : t ≤ 253402300799) :
     dateToTime now (renderAsctime t) = some t :=
   (asctime_roundtrip now t h0 h1).2
 
@@ -417,7 +498,8 @@ theorem c15_date_roundtrip_asctime (now t : Int) (h0 : 0 ≤ t) (h1 : t ≤ 2534
    years in the next century when the clock is in the second half of a century —
    there the code (it only tries the current century and the one before) reads
    e.g. "10" in 2090 as 2010 where RFC 9110 5.6.7 says 2110. -/
-theorem c15_date_roundtrip_rfc850_partial (now t : Int) (h0 : 0 ≤ t) (h1 : t ≤ 253402300799)
+theorem c15_date_roundtrip_rfc850_partial (now t : Int) (h0 : -30610224000 ≤ t)
+    (h1 : t ≤ 253402300799)
     (hwin : InWindow850 (yearOf now) (gmtime t).1.year) :
     dateToTime now (renderRFC850 t) = some t :=
   (rfc850_roundtrip now t h0 h1 hwin).2
@@ -432,7 +514,8 @@ theorem c15_civil_bijection (t : Int) :
   ⟨timegm_gmtime t, civil_month_day (t / 86400)⟩
 
 /-- If-Modified-Since carrying an emitted date: "modified" iff the file is newer. -/
-theorem c15_if_modified_since_exact (now t lmtime : Int) (h0 : 0 ≤ t) (h1 : t ≤ 253402300799) :
+theorem c15_if_modified_since_exact (now t lmtime : Int) (h0 : -30610224000 ≤ t)
+    (h1 : t ≤ 253402300799) (hne1 : t ≠ -1) :
     ifModifiedSince now (renderIMF t) lmtime = decide (lmtime > t) ∧
     ifModifiedSince now (renderAsctime t) lmtime = decide (lmtime > t) := by
   have hne : (t == -1) = false := by
@@ -474,7 +557,7 @@ example : SameRepresentation (rfc7233 { exReq with method := 1 } exResp) exResp 
 example : exCondReq.method ≤ 1 ∧
     handleCachable 0 exCondReq (some (ofString "\"x\"")) none 5 = .notModified := by
   refine ⟨by decide, ?_⟩
-  rw [c15_304_iff 0 exCondReq _ none 5 (by decide)]
+  rw [c15_304_iff_general 0 exCondReq _ none 5 (by decide)]
   left
   refine ⟨ofString "W/\"x\"", rfl, ?_⟩
   have h := c15_etag_list ⟨false, ofString "x"⟩ (by unfold ETag.WF; decide) true []
@@ -492,6 +575,14 @@ example : (⟨false, ofString "x"⟩ : ETag).WF ∧ AllDelim [32] ∧ ItemsOk ex
   refine ⟨by unfold ETag.WF; decide, by unfold AllDelim; decide, ?_, by decide, by decide⟩
   simp only [exItems, ItemsOk, ETag.WF, ETag.NoDelim, AllDelim]
   decide
+example : exCondReqIms.method ≤ 1 ∧
+    handleCachable 0 exCondReqIms (some (ofString "\"x\"")) (some (timeToStr 784111777)) 784111777
+      = .notModified ∧
+    handleCachable 0 exCondReqIms (some (ofString "\"x\"")) (some (timeToStr 784111778)) 784111778
+      = .goOn := by decide
+example : timeToStr (-86400) = ofString "Wed, 31 Dec 1969 00:00:00 GMT" ∧
+    dateToTime 0 (ofString "Wed, 31 Dec 1969 00:00:00 GMT") = some (-86400) ∧
+    (timeToStr (-30610224000)).length = 29 := by decide
 example : renderIMF 784111777 = ofString "Sun, 06 Nov 1994 08:49:37 GMT" := by decide
 example : dateToTime 1790000000 (ofString "Sunday, 06-Nov-94 08:49:37 GMT") = some 784111777 := by decide
 example : InWindow850 (yearOf 1790000000) (gmtime 784111777).1.year := by
